@@ -53,7 +53,7 @@ def layouts(draw, min_axes=1, max_axes=3, min_n=2, max_n=6, max_cells=400, big_n
     budget = max_cells
     for i in range(k):
         mx = max(min_n, min(max_n, int(budget ** (1.0 / (k - i))) if budget > 1 else min_n))
-        ax = draw(axis_layout(AXIS_NAMES[i], min_n=min_n, max_n=mx, big_n=(big_n and k == 1), **kw))
+        ax = draw(axis_layout(AXIS_NAMES[i], min_n=min_n, max_n=mx, big_n=(big_n and i == 0), **kw))
         budget = max(1, budget // (ax["n"] + 1))
         axes.append(ax)
     # the order in which the axes are listed (and hence given to Grid(coords=...)) is drawn as well
@@ -61,7 +61,9 @@ def layouts(draw, min_axes=1, max_axes=3, min_n=2, max_n=6, max_cells=400, big_n
 
 
 def extra_dims():
-    return st.lists(st.integers(1, 3), min_size=0, max_size=2).map(
+    # mostly 0-2 extra dimensions, now and then three
+    return st.one_of(st.lists(st.integers(1, 3), min_size=0, max_size=2), st.lists(st.integers(1, 3), min_size=0, max_size=2),
+                     st.lists(st.integers(1, 2), min_size=3, max_size=3)).map(
         lambda sizes: [[f"e{i}", s] for i, s in enumerate(sizes)]
     )
 
@@ -158,9 +160,23 @@ def link_tables(draw, nfaces, axes=("X", "Y"), min_pairs=1, allow_self=True, kee
     return out
 
 
-def table_to_xgcm(table, facedim="face", face_order=None, reverse_axes=False):
+def _flag(v, style):
+    if style == "numpy":
+        return np.bool_(v)
+    if style == "int":
+        return int(bool(v))
+    return bool(v)
+
+
+def _face(v, style):
+    return np.int64(v) if style == "numpy" else int(v)
+
+
+def table_to_xgcm(table, facedim="face", face_order=None, reverse_axes=False, flag_style="python"):
     """JSON table -> the nested dict xgcm expects (int face keys, tuple links).  `face_order` (a list of
-    positions) and `reverse_axes` change only the order in which faces / axes are *listed* in the dicts."""
+    positions) and `reverse_axes` change only the order in which faces / axes are *listed* in the dicts;
+    `flag_style` the Python type of the `reverse` flags and face numbers inside the links (bool/int, numpy.bool_/
+    numpy.int64 as in tables computed with numpy, or 0/1)."""
     faces = list(table)
     if face_order:
         faces = [faces[i] for i in face_order if i < len(faces)] + [f for k, f in enumerate(faces) if k not in face_order]
@@ -168,10 +184,25 @@ def table_to_xgcm(table, facedim="face", face_order=None, reverse_axes=False):
     for f in faces:
         per = table[f]
         axes = list(per)[::-1] if reverse_axes else list(per)
-        out[int(f)] = {a: tuple(None if l is None else (int(l[0]), l[1], bool(l[2])) for l in per[a]) for a in axes}
+        out[int(f)] = {a: tuple(None if l is None else (_face(l[0], flag_style), l[1], _flag(l[2], flag_style)) for l in per[a]) for a in axes}
     return {facedim: out}
 
 
 def table_to_model(table):
     return {int(f): {a: [None if l is None else (int(l[0]), l[1], bool(l[2])) for l in sides]
                      for a, sides in per.items()} for f, per in table.items()}
+
+
+def rule_sources(rule):
+    """(label, grid settings, call_boundary, call_fill): the ways in which a boundary rule and a fill value can come to be in
+    force for a call - used by the exhaustive tables of C01 / C02 / C09."""
+    other = {"fill": "extend", "extend": "periodic", "periodic": "fill"}[rule]
+    return [
+        ("grid", {"periodic": False, "boundary": rule, "fill_value": -5.0}, None, None),
+        ("call", {"periodic": False, "boundary": None, "fill_value": None}, rule, 2.5),
+        ("both", {"periodic": False, "boundary": other, "fill_value": -5.0}, rule, 2.5),
+        ("call-rule-grid-fill", {"periodic": False, "boundary": None, "fill_value": -5.0}, rule, None),
+        ("call-rule-grid-fill-other-rule", {"periodic": False, "boundary": other, "fill_value": -5.0}, rule, None),
+        ("grid-rule-call-fill", {"periodic": False, "boundary": rule, "fill_value": 9.0}, None, 2.5),
+        ("periodic-grid-call-rule", {"periodic": True, "boundary": None, "fill_value": -5.0}, rule, None),
+    ]
